@@ -238,10 +238,14 @@ func (g *Gen) mergeDelta(c ColSpec, curLen int) Val {
 		}
 		return Val{S: g.randBytes(g.rng.Intn(12))}
 	case KStringMin:
-		if g.pool == "small" || g.pool == "agg" {
-			return Val{S: g.sortAlph[g.rng.Intn(len(g.sortAlph))]}
+		pre := ""
+		if g.rng.Intn(3) == 0 {
+			pre = "=" // the merge function takes the tail of such a delta
 		}
-		return Val{S: g.randBytes(1 + g.rng.Intn(10))} // longer or shorter than the current value
+		if g.pool == "small" || g.pool == "agg" {
+			return Val{S: pre + g.sortAlph[g.rng.Intn(len(g.sortAlph))]}
+		}
+		return Val{S: pre + g.randBytes(1+g.rng.Intn(10))} // longer or shorter than the current value
 	}
 	return g.value(c)
 }
